@@ -909,6 +909,29 @@ class Engine:
                 raise Unsupported(f"mutation of {name!r} while aliased by {n!r}")
 
     def s_Assign(self, s, st):
+        # x = d.pop(k, default) and friends: a mutating method whose result is used
+        if (isinstance(s.value, ast.Call) and isinstance(s.value.func, ast.Attribute) and s.value.func.attr in ("pop", "setdefault")
+                and self._lvalue_path(s.value.func.value) is not None and len(s.targets) == 1
+                and not any(isinstance(a, ast.Starred) for a in s.value.args) and not s.value.keywords):
+            call = s.value
+            path = self._lvalue_path(call.func.value)
+            outs = []
+            for s1, vals in self.eval_many(call.args, st):
+                if isinstance(vals, RaiseV):
+                    outs.append(Outcome("raise", s1, vals))
+                    continue
+                recv = self._read_path(s1, path)
+                for s2, r2 in self.split(s1, recv):
+                    res = self.bm.mutate(self, s2, r2, call.func.attr, vals, {}, call)
+                    if res is None:
+                        raise Unsupported(f"{call.func.attr} on {type(r2).__name__}")
+                    for s3, newrecv, ret in res:
+                        if isinstance(ret, RaiseV):
+                            outs.append(Outcome("raise", s3, ret))
+                        else:
+                            outs.extend(self.assign(s.targets[0], ret, self._write_path(s3, path, newrecv)))
+            return outs
+
         def f(s2, v):
             outs = [Outcome("normal", s2)]
             for tgt in s.targets:
